@@ -109,8 +109,10 @@ class Unseen:
     first `frac` of what it created survives (the last surviving file is cut in half), then the
     power goes off."""
 
-    def __init__(self, owner, name, counter, cut=None):
-        self.owner, self.name, self.counter, self.cut = owner, name, counter, cut
+    def __init__(self, owner, name, counter, cut=None, fault=None):
+        # fault = (j, frac, errno): like cut, but instead of the power going off the j-th call raises
+        # OSError(errno) after having done part of its work; the caller's own error handling runs
+        self.owner, self.name, self.counter, self.cut, self.fault = owner, name, counter, cut, fault
         self.orig = getattr(owner, name)
 
     def __enter__(self):
@@ -136,16 +138,22 @@ class Unseen:
         except Exception as e:  # noqa
             exc = e
         after = fsrec.snapshot(rec.root)
-        if self.cut and self.cut[0] == j:
+        part = self.cut if self.cut and self.cut[0] == j else self.fault if self.fault and self.fault[0] == j else None
+        if part:
             created = [p for p in sorted(after, key=lambda x: (x.count("/"), x)) if p not in before]
-            keep = created[: int(len(created) * self.cut[1] + 0.5)]
+            keep = created[: int(len(created) * part[1] + 0.5)]
             for p in reversed(created[len(keep):]):
                 _rm_any(os.path.join(rec.root, p))
             files = [p for p in keep if after[p]["type"] == "file"]
             if files:
                 fp = os.path.join(rec.root, files[-1])
                 fsrec._real["truncate"](fp, after[files[-1]]["size"] // 2)
-            rec.cut_event = dict(k=rec.n_mut, op="unseen:" + self.name, rp=(files[-1] if files else (created[0] if created else ".")))
+            where = dict(k=rec.n_mut, op="unseen:" + self.name, rp=(files[-1] if files else (created[0] if created else ".")))
+            if part is self.fault:
+                rec.events.extend(diff_events(rec, before, fsrec.snapshot(rec.root)))
+                rec.events.append(dict(k=rec.n_mut, op="fault", rp=where["rp"], failed_op=where["op"]))
+                raise OSError(part[2], os.strerror(part[2]), os.path.join(rec.root, where["rp"]))
+            rec.cut_event = where
             rec.dead = True
             raise fsrec.PowerCut("power cut inside " + self.name)
         rec.events.extend(diff_events(rec, before, after))
@@ -175,9 +183,11 @@ def fresh(root, setup):
     setup(root)
 
 
-def crash_scenario(tid, root, setup, op, reader, units=(), views=(), frame=(), unseen=lambda counter, cut: [], max_cuts=None,
-                   after_crash=None):
-    """One operation: recorded run (FsTrace events) + a replay per crash point.
+def crash_scenario(tid, root, setup, op, reader, units=(), views=(), frame=(), unseen=lambda counter, cut, fault=None: [], max_cuts=None,
+                   after_crash=None, faults=True):
+    """One operation: recorded run (FsTrace events) + a replay per crash point + (faults) a replay per
+    mutation with an I/O error injected there (EIO / ENOSPC alternating; also inside the unseen steps):
+    the operation's own error handling runs and the view it leaves behind is judged like a crash view.
     Returns (fs_events, info); info['crashes'] = [dict(k, kind, at_op, at_path, view, extra)]."""
     fresh(root, setup)
     before = fsrec.snapshot(root)
@@ -226,6 +236,25 @@ def crash_scenario(tid, root, setup, op, reader, units=(), views=(), frame=(), u
         if after_crash:
             c["extra"] = after_crash(root, c)
         info["crashes"].append(c)
+    if faults:
+        import errno
+
+        fplan = [("eio", k) for k in ks] + [("eio-unseen", j) for j in range(1, n_unseen + 1)]
+        for kind, k in fplan:
+            fresh(root, setup)
+            counter = [0]
+            err = errno.ENOSPC if k % 2 else errno.EIO
+            if kind == "eio-unseen":
+                with Stack(unseen(counter, None, (k, 0.5, errno.ENOSPC))):
+                    r, exc2 = fsrec.run_with_fault(root, lambda: op(root), 10 ** 9)
+            else:
+                with Stack(unseen(counter, None)):
+                    r, exc2 = fsrec.run_with_fault(root, lambda: op(root), k, err=err)
+            fe = next((e for e in r.events if e["op"] == "fault"), None)
+            if fe is None:
+                raise tlc.MachineryError(f"replay {kind}@{k}: no fault was injected (non-deterministic operation?)")
+            info["crashes"].append(dict(k=k, kind=kind, at_op=fe.get("failed_op", "?"), at_path=fe.get("rp", "?"), view=reader(root),
+                                        raised=type(exc2).__name__ if exc2 is not None else "-"))
     return fs_events, info
 
 
@@ -405,7 +434,10 @@ def unit_of(snap, rel, kind):
 
 def run(ck):
     use_repo()
+    import logging
     from concurrent.futures import ThreadPoolExecutor
+
+    logging.getLogger("pkgcore").setLevel(logging.CRITICAL)  # injected I/O errors are logged by update_mtime()
 
     from pkgcore.binpkg import repo_ops as bin_ops
 
@@ -418,9 +450,9 @@ def run(ck):
                       "binpkg replace of a different version is carved out (both files legitimately stay)"]
 
     # ---- design-level model checking (runs in the background while the real code is exercised) ----
-    def mc(fam, invs):
-        return tlc.run("PkgDb_MC", cfg_text=f'SPECIFICATION Spec\nCONSTANT Family = "{fam}"\n' + "".join(f"INVARIANT {i}\n" for i in invs),
-                       timeout=600, workers=1)
+    def mc(fam, handler, rollback, invs):
+        return tlc.run("PkgDb_MC", cfg_text=f'SPECIFICATION Spec\nCONSTANTS\n Family = "{fam}"\n IOFaults = TRUE\n Handler = "{handler}"\n'
+                       f' Rollback = {rollback}\n' + "".join(f"INVARIANT {i}\n" for i in invs), timeout=600, workers=1)
 
     import time
 
@@ -432,12 +464,15 @@ def run(ck):
 
     pool = ThreadPoolExecutor(6)
     mc_jobs = [
-        ("MC:PkgDb safe (install, binpkg, vdb uninstall via rename-away)", "safe", ["Consistent", "NoError", "Completes", "NonVacuous"], None),
-        ("MC:PkgDb head rmtree in place (must violate NeverPartial)", "head", ["NeverPartial"], "NeverPartial"),
-        ("MC:PkgDb replace via two renames (must violate Consistent)", "window", ["Consistent"], "Consistent"),
-        ("MC:PkgDb replace via two renames: only the window is bad", "window", ["ConsistentOutsideWindow", "NeverPartial", "NoCollateral", "NoError", "Completes"], None),
+        ("MC:PkgDb safe (install, binpkg, vdb uninstall via rename-away) + I/O errors", ("safe", "tmp", "TRUE", ["Consistent", "AbortedConsistent", "NoError", "Completes", "NonVacuous"]), None),
+        ("MC:PkgDb head rmtree in place (must violate NeverPartial)", ("head", "tmp", "TRUE", ["NeverPartial"]), "NeverPartial"),
+        ("MC:PkgDb replace via two renames (must violate Consistent)", ("window", "tmp", "TRUE", ["Consistent"]), "Consistent"),
+        ("MC:PkgDb replace via two renames + rollback: only the window is bad, handled failures end old-or-new",
+         ("window", "tmp", "TRUE", ["ConsistentOutsideWindow", "AbortedConsistent", "NeverPartial", "NoCollateral", "NoError", "Completes"]), None),
+        ("MC:PkgDb binpkg handler that also unlinks the final name (must violate AbortedConsistent)", ("safe", "both", "TRUE", ["AbortedConsistent"]), "AbortedConsistent"),
+        ("MC:PkgDb replace without rollback: failed move-in leaves neither (must violate AbortedConsistent)", ("window", "tmp", "FALSE", ["AbortedConsistent"]), "AbortedConsistent"),
     ]
-    futs = [(label, want, pool.submit(mc, fam, invs)) for label, fam, invs, want in mc_jobs]
+    futs = [(label, want, pool.submit(mc, *args)) for label, args, want in mc_jobs]
 
     shapes = ck.export("PkgDb_Export")
     _phase("export")
@@ -557,8 +592,8 @@ def run(ck):
             if by_rel:
                 views = [v + ["complete"] for v in views]
 
-            def unseen(counter, cut):
-                return [Unseen(bin_ops.tar, "write_set", counter, cut)]
+            def unseen(counter, cut, fault=None):
+                return [Unseen(bin_ops.tar, "write_set", counter, cut, fault)]
 
             root = os.path.join(sdir, "root")
             evs, info = crash_scenario(tid, root, setup, op_fn, reader, units=units, views=views, frame=[kind],
@@ -569,7 +604,7 @@ def run(ck):
                         old=info["old_view"], new=info["new_view"])
             tr_events.append(dict(base, tid=tid, i=0, ev="done", view=[]))
             for n, c in enumerate(info["crashes"], 1):
-                tr_events.append(dict(base, tid=tid, i=n, ev="crash", view=c["view"]))
+                tr_events.append(dict(base, tid=tid, i=n, ev="fault" if c["kind"].startswith("eio") else "crash", view=c["view"]))
                 ck.count()
                 if info["old_view"] != info["new_view"]:
                     ck.nontriv((effective(shape), rnd, c["kind"], c["k"]))
